@@ -16,7 +16,7 @@ def run(prop, path):
         print("no failing input was recorded for this obligation (no-failing-input-found)")
         return 1
     mod = importlib.import_module(f"gtv.props.{prop}")
-    ob = [o for o in mod.REG.obs if o.id == rec["obligation"]][0]
+    ob = [o for o in list(mod.REG.obs) + runner.unit_variants(mod.REG.obs) if o.id == rec["obligation"]][0]
     res = runner.run_numeric(ob, rec["sizes"], rec["num_seed"])
     res["clauses"] = [c for c in res["clauses"] if ob.keeps(c["clause"])]
     bad = [c for c in res["clauses"] if not c["ok"]]
